@@ -235,7 +235,7 @@ func RunCancelCase(seed int64, o CancelOpts) *HistResult {
 	q.journal("variant %s shape=%d tasks=%v deps=%v order=%v real=%v", o.Variant, o.Shape, g.Names, g.Deps, order, o.Real)
 	key := fmt.Sprintf("%s real=%v tasks=%d", o.Variant, o.Real, len(g.Names))
 
-	var target string
+	var target, runFollower string
 	var shutdownDone chan struct{}
 	var expectNeverRuns bool
 	var expectCanceled bool // strict: the job must end reported canceled
@@ -317,6 +317,11 @@ func RunCancelCase(seed int64, o CancelOpts) *HistResult {
 		target = schedule("tgt")
 		if target == "" {
 			return res
+		}
+		if !o.Real && seed%2 == 0 {
+			// a job queued behind the one that is going to be canceled: whatever the instant of the cancel, it gets its turn
+			runFollower = schedule("fol")
+			key += " follower"
 		}
 		switch o.Variant {
 		case CvParkedDeliveredBeforeRelease, CvParkedReleaseRacesDelivery:
@@ -609,6 +614,7 @@ func RunCancelCase(seed int64, o CancelOpts) *HistResult {
 		}
 	}
 	res.sit("C04", key)
+	res.sit("C03", key)
 
 	// ---- drain: release everything, let every job finish ----
 	drainDeadline := time.Now().Add(o.Watchdog)
@@ -691,6 +697,11 @@ func RunCancelCase(seed int64, o CancelOpts) *HistResult {
 			}
 		}
 	}
+	if runFollower != "" && shutdownDone == nil {
+		if fj := final.ByID(runFollower); fj != nil && !fj.Completed {
+			res.Findings = append(res.Findings, Finding{Props: []string{"C03", "C04"}, Sig: "C03:follower-of-canceled-job-stranded", Detail: fmt.Sprintf("the job queued behind the canceled running job never ran (%s): started=%v completed=%v canceled=%v", o.Variant, fj.Start != nil, fj.Completed, fj.Canceled), Step: -1})
+		}
+	}
 	if doneBefore >= 0 && !waitingVariant {
 		unrun := 0
 		for _, n := range g.Names {
@@ -723,7 +734,7 @@ func RunCancelCase(seed int64, o CancelOpts) *HistResult {
 		q.offline()
 		var keep []Finding
 		for _, f := range res.Findings {
-			if f.Has("C04") {
+			if f.Has("C04") || f.Has("C03") {
 				keep = append(keep, f)
 			}
 		}
